@@ -1167,6 +1167,11 @@ class Interp:
                 raise SpecError(f"unknown ghost variable {name}")
             return st.ghost[name]
         mod = self.w.facts["modules"].get(m.name)
+        sg = getattr(self.cur, "symbolic_globals", None) if self.cur is not None else None
+        if sg and f"{m.name}.{name}" in sg:
+            # a platform / backend flag the proof must not depend on: an arbitrary (but fixed) bool
+            self.stats["builtins_used"].add(f"module flag {m.name}.{name}: arbitrary fixed bool (proved for both values)")
+            return Sym(mk_bool(z3.Bool(f"glob_{m.name}.{name}")))
         if mod is not None:
             if name in mod["globals"]:
                 return self.from_fact(mod["globals"][name])
